@@ -673,13 +673,24 @@ def check_unions(col):
                 wants = {"isstdlibtype": all(m in STDLIB for m in real), "isbuiltintype": None,
                          "isoptionaltype": len(real) != len(members), "isuniontype": True,
                          "isliteral": False, "isfinal": False, "isclassvartype": False, "isnonetype": False, "isforwardref": False}
-                for pname, want in wants.items():
-                    if want is None:
+                # the same union behind naming wrappers / ClassVar: Python resolves all of them to the union
+                wrapped = [(name, U_)]
+                if k == 2 and sp == "Union":
+                    wrapped += [(f"alias({name})", typing.TypeAliasType("UA", U_)), (f"NewType({name})", typing.NewType("UN", U_)),
+                                (f"alias(alias({name}))", typing.TypeAliasType("UAA", typing.TypeAliasType("UA", U_))),
+                                (f"NewType(alias({name}))", typing.NewType("UNA", typing.TypeAliasType("UA", U_))),
+                                (f"ClassVar[{name}]", typing.ClassVar[U_])]
+                for wname, WU in wrapped:
+                  for pname, want in wants.items():
+                    # (behind a wrapper only isuniontype is judged: the statement lists wrappers for the class-valued predicates, and
+                    # isoptionaltype / isstdlibtype of an alias of a union do not look through it on the pinned tree - not claimed)
+                    if want is None or (WU is not U_ and pname != "isuniontype"):
                         continue
                     col.ev()
                     col.label("predicate:" + pname)
-                    col.nt(f"{pname}|{name}")
-                    r1, r2 = call(pname, U_)
+                    col.nt(f"{pname}|{wname}")
+                    r1, r2 = call(pname, WU)
+                    name = wname
                     case = {"predicate": pname, "object": name}
                     if r1[0] == "exc":
                         col.violation("never-raises", case, f"{pname}({name}) raised {tl.exc_name(r1[1])}", bucket=f"{pname}|union")
@@ -690,8 +701,48 @@ def check_unions(col):
     col.exhaustive_done = True
 
 
+def check_late_definition(col):
+    """A PEP 695 alias (`type X = list[Item]`) is inspected before the class its value names exists: resolving it fails, the
+    caller handles that. Once the class is declared the alias is an ordinary alias: every answer must be the one given for a
+    twin alias that nobody looked at too early ("stable across calls" includes calls that failed)."""
+    from harness import late
+    preds = ["istypealiastype", "origin", "unwrap", "iscollectiontype", "ismappingtype", "isiterabletype", "issubscriptedgeneric", "isuniontype",
+             "isstructuredtype", "isstdlibtype", "args", "name", "qualname", "isforwardref", "isgeneric"]
+    for aname in ("LazyItems", "LazyMap"):
+        for early in (["origin"], ["istypealiastype"], ["unwrap", "iscollectiontype"], preds):
+            tl.clear_all()
+            twin = late.TwoPhase("c17twin").declare()
+            want = {}
+            for pn in preds:
+                k, r = tl.call(getattr(I, pn), twin.mod.__dict__[aname])
+                want[pn] = twin.norm(repr((k, r if k == "ok" else tl.exc_name(r))))
+            twin.close()
+            tl.clear_all()
+            tp_ = late.TwoPhase("c17")
+            try:
+                X = tp_.mod.__dict__[aname]
+                for pn in early:           # phase 1: may fail, handled
+                    tl.call(getattr(I, pn), X)
+                    tl.call(getattr(I, pn), typing.NewType("EarlyNT", X))
+                tp_.declare()
+                for pn in preds:
+                    col.ev()
+                    col.nt(f"late|{aname}|{early[:2]}|{pn}")
+                    col.label("late-definition")
+                    k, r = tl.call(getattr(I, pn), X)
+                    got = tp_.norm(repr((k, r if k == "ok" else tl.exc_name(r))))
+                    if got != want[pn]:
+                        col.violation("stable", {"predicate": pn, "object": f"late:{aname}", "early": early[:3]},
+                                      f"{pn}({aname}) after the alias was inspected before its target existed: {got[:200]}; for an alias nobody "
+                                      f"looked at too early: {want[pn][:200]}", bucket=f"late-definition|{pn}")
+            finally:
+                tp_.close()
+    col.exhaustive_done = True
+
+
 def plan(tier, seed):
     shards = [{"kind": "catalogue", "lo": i, "step": 12} for i in range(12)]
+    shards.append({"kind": "late-definition"})
     shards.append({"kind": "special"})
     shards.append({"kind": "unions"})
     for i in range(3):
@@ -703,6 +754,8 @@ def run_shard(shard, col):
     tl.clear_all()
     if shard["kind"] == "catalogue":
         check_catalogue(col, shard["lo"], shard["step"])
+    elif shard["kind"] == "late-definition":
+        check_late_definition(col)
     elif shard["kind"] == "unions":
         catalogue()
         check_unions(col)
@@ -719,7 +772,9 @@ def run_shard(shard, col):
 
 def replay(clause, case, col):
     tl.clear_all()
-    if case["object"].startswith(("special:", "spelling:", "instance:", "callable:")):
+    if case["object"].startswith("late:"):
+        check_late_definition(col)
+    elif case["object"].startswith(("special:", "spelling:", "instance:", "callable:")):
         catalogue()
         check_special(col)
         check_unions(col)
